@@ -31,6 +31,7 @@ type Audit struct {
 	hostNil  map[string][]int // function name -> parameter indices the host may pass nil
 	usedEx   map[string]bool
 	only     func(*ssa.BasicBlock) bool // when set, only sites in these blocks are audited
+	pendingSrc string                   // source text of the site being reported (shown in the detail)
 }
 
 // isRecoverBarrier: the function's first instruction that can do anything is a
@@ -251,6 +252,10 @@ func (a *Audit) exemptKey(fn *ssa.Function, construct string) string {
 
 func (a *Audit) site(fn *ssa.Function, kind, construct string, pos token.Pos, ok bool, why string) {
 	c := kind + " " + construct
+	if a.pendingSrc != "" {
+		why = "[" + a.pendingSrc + "] " + why
+		a.pendingSrc = ""
+	}
 	if ok {
 		a.r.ok(a.rule, fn, c, pos, why)
 		return
@@ -274,21 +279,55 @@ func (a *Audit) describe(v ssa.Value) string {
 		switch v.(type) {
 		case *ssa.TypeAssert, *ssa.Slice:
 			if s := a.w.srcExpr(in); s != "" {
-				return s
+				a.pendingSrc = s
 			}
 		}
 	}
-	return describeVal(a.e, v, 0)
+	return canonVal(a.e, v)
+}
+
+// canonNames switches describeVal to a rendering that does not depend on the names of
+// parameters, locals and captured variables (used for obligation keys and exemptions).
+var canonNames bool
+
+func canonVal(e *Engine, v ssa.Value) string {
+	old := canonNames
+	canonNames = true
+	defer func() { canonNames = old }()
+	return describeVal(e, v, 0)
+}
+
+func paramIndexName(p *ssa.Parameter) string {
+	for i, q := range p.Parent().Params {
+		if q == p {
+			return fmt.Sprintf("p%d", i)
+		}
+	}
+	return "p?"
 }
 
 func describeVal(e *Engine, v ssa.Value, depth int) string {
-	if depth > 6 {
+	limit := 6
+	if canonNames {
+		limit = 14
+	}
+	if depth > limit {
 		return "…"
 	}
 	switch x := v.(type) {
 	case *ssa.Parameter:
+		if canonNames {
+			return paramIndexName(x)
+		}
 		return x.Name()
 	case *ssa.FreeVar:
+		if canonNames {
+			for i, q := range x.Parent().FreeVars {
+				if q == x {
+					return fmt.Sprintf("fv%d", i)
+				}
+			}
+		}
 		return x.Name()
 	case *ssa.Const:
 		if x.Value == nil {
@@ -320,15 +359,32 @@ func describeVal(e *Engine, v ssa.Value, depth int) string {
 				base := describeVal(e, ad.X, depth+1)
 				if al, ok := ad.X.(*ssa.Alloc); ok && al.Comment != "" {
 					base = al.Comment
+					if canonNames {
+						base = "local"
+						// a local struct assigned exactly once: render the assigned value
+						if e != nil && e.cellStores(al) == 1 {
+							for _, ref := range *al.Referrers() {
+								if st, ok := ref.(*ssa.Store); ok && st.Addr == ssa.Value(al) {
+									base = describeVal(e, st.Val, depth+1)
+								}
+							}
+						}
+					}
 				}
 				return base + "." + fieldName(ad.X.Type(), ad.Field)
 			case *ssa.IndexAddr:
 				return describeVal(e, ad.X, depth+1) + "[" + describeVal(e, ad.Index, depth+1) + "]"
 			case *ssa.Alloc:
+				if canonNames {
+					return "local"
+				}
 				if ad.Comment != "" {
 					return ad.Comment
 				}
 			case *ssa.FreeVar:
+				if canonNames {
+					return describeVal(e, ad, depth+1)
+				}
 				return ad.Name()
 			case *ssa.Global:
 				return ad.Name()
@@ -349,11 +405,17 @@ func describeVal(e *Engine, v ssa.Value, depth int) string {
 	case *ssa.Call:
 		return describeCall(e, x, depth+1)
 	case *ssa.Phi:
+		if canonNames {
+			return "φ"
+		}
 		if x.Comment != "" {
 			return x.Comment
 		}
 		return "phi"
 	case *ssa.Alloc:
+		if canonNames {
+			return "&local"
+		}
 		if x.Comment != "" {
 			return "&" + x.Comment
 		}
@@ -658,11 +720,8 @@ func (a *Audit) auditFunc(fn *ssa.Function) {
 			case *ssa.Slice:
 				a.sliceSite(fn, b, in)
 			case *ssa.Panic:
-				d := a.w.srcExpr(in)
-				if d == "" {
-					d = a.describe(in.X)
-				}
-				a.site(fn, "panic", d, instrPos(in), false, "explicit panic reachable outside a recover barrier")
+				a.pendingSrc = a.w.srcExpr(in)
+				a.site(fn, "panic", canonVal(a.e, in.X), instrPos(in), false, "explicit panic reachable outside a recover barrier")
 			case *ssa.BinOp:
 				if (in.Op == token.QUO || in.Op == token.REM) && isIntType(in.Type()) {
 					if c, ok := in.Y.(*ssa.Const); ok && c.Value != nil && constant.Sign(c.Value) != 0 {
@@ -825,10 +884,8 @@ func (a *Audit) lenTermOf(x ssa.Value) Term {
 }
 
 func (a *Audit) indexSite(fn *ssa.Function, b *ssa.BasicBlock, in ssa.Instruction, x, idx ssa.Value) {
-	construct := a.w.srcExpr(in)
-	if construct == "" {
-		construct = a.describe(x) + "[" + a.describe(idx) + "]"
-	}
+	construct := canonVal(a.e, x) + "[" + canonVal(a.e, idx) + "]"
+	a.pendingSrc = a.w.srcExpr(in)
 	t := x.Type().Underlying()
 	if p, ok := t.(*types.Pointer); ok {
 		t = p.Elem().Underlying()
